@@ -29,7 +29,43 @@ type c12World struct {
 	key      string
 	kinds    []*sim.Kind
 	good     world.HookFunc
+	wrap     func(world.HookFunc) world.HookFunc
 }
+
+// c12ETag: what ordinary ETag middleware in front of a hook does - the tag is derived from what the answer
+// depends on (the hook's own version, the parent's spec and generation, the observed children's names, labels
+// and specs), it is set on every answer (also on error pages: the middleware runs before the handler), and a
+// request that carries the tag in If-None-Match is answered 304 without running the handler. With a pure hook
+// this is sound: requests with the same tag always have the same answer.
+var c12Epoch string
+
+func c12ETag(h world.HookFunc) world.HookFunc {
+	return func(hc *world.HookCall) (int, http.Header, []byte, error) {
+		stable := kit.M{"epoch": c12Epoch, "spec": kit.Get(hc.Parsed, "parent", "spec"), "gen": kit.Get(hc.Parsed, "parent", "metadata", "generation"), "finalizing": hc.Parsed["finalizing"]}
+		ch := kit.M{}
+		for g, m := range kit.Map(hc.Parsed, "children") {
+			for n, o := range m.(kit.M) {
+				ch[g+"/"+n] = kit.L{kit.Get(o, "spec"), kit.Get(o, "metadata", "labels")}
+			}
+		}
+		stable["children"] = ch
+		tag := `"` + mc.Hash(kit.JSON(stable)) + `"`
+		if hc.Header.Get("If-None-Match") == tag {
+			return 304, http.Header{"Etag": []string{tag}}, nil, nil
+		}
+		code, hdr, body, err := h(hc)
+		if err != nil {
+			return code, hdr, body, err
+		}
+		if hdr == nil {
+			hdr = http.Header{}
+		}
+		hdr.Set("Etag", tag)
+		return code, hdr, body, nil
+	}
+}
+
+func c12Plain(h world.HookFunc) world.HookFunc { return h }
 
 // mixed scenario: one sync that creates a, updates b in place, recreates c (Widget), deletes d, adopts e,
 // releases g, adds the finalizer and writes the status.
@@ -41,12 +77,15 @@ func c12Build(scenario string) *c12World {
 		}
 		rw.edit("tpl", "v2")
 		rw.round() // first move done; the next sync performs the second move (revision writes + child update)
-		return &c12World{cworld: rw.cworld, scenario: scenario, roll: rw, key: rw.key, kinds: []*sim.Kind{kit.Widget}, good: rollHook(kit.Widget, "n1", false)}
+		return &c12World{cworld: rw.cworld, scenario: scenario, roll: rw, key: rw.key, kinds: []*sim.Kind{kit.Widget}, good: rollHook(kit.Widget, "n1", false), wrap: c12Plain}
 	}
-	o := ccOpt{parent: kit.Thing, children: []*sim.Kind{kit.Leaf, kit.Widget}, finalize: true,
+	o := ccOpt{parent: kit.Thing, children: []*sim.Kind{kit.Leaf, kit.Widget}, finalize: true, etag: scenario == "mixed-etag",
 		methods: map[string]v1alpha1.ChildUpdateMethod{"leafs": v1alpha1.ChildUpdateInPlace, "widgets": v1alpha1.ChildUpdateRecreate}}
 	w := newCWorld(o, true)
-	x := &c12World{cworld: w, scenario: scenario, key: "n1/p", kinds: []*sim.Kind{kit.Leaf, kit.Widget}}
+	x := &c12World{cworld: w, scenario: scenario, key: "n1/p", kinds: []*sim.Kind{kit.Leaf, kit.Widget}, wrap: c12Plain}
+	if scenario == "mixed-etag" {
+		x.wrap = c12ETag
+	}
 	p := kit.Obj(kit.Thing, "n1", "p")
 	kit.Field(p, "puid", "metadata", "uid")
 	kit.Field(p, kit.M{"matchLabels": kit.M{"app": "x"}}, "spec", "selector")
@@ -59,15 +98,16 @@ func c12Build(scenario string) *c12World {
 		return kit.L{child(kit.Leaf, "a", v), child(kit.Leaf, "b", v), child(kit.Widget, "c", v), child(kit.Leaf, "e", v)}
 	}
 	ver := "1"
-	h := world.JSON(func(req map[string]interface{}) interface{} {
+	h := x.wrap(world.JSON(func(req map[string]interface{}) interface{} {
 		return kit.M{"status": kit.M{"seen": ver}, "children": desired(ver)}
-	})
+	}))
 	w.Hooks.Handle("/cc/sync", h)
 	w.Hooks.Handle("/cc/finalize", h)
 	// bootstrap with the real create path at v1 (b, c, e, plus d and g which will become undesired / non-matching)
-	boot := world.JSON(func(req map[string]interface{}) interface{} {
+	boot := x.wrap(world.JSON(func(req map[string]interface{}) interface{} {
 		return kit.M{"status": kit.M{"seen": "0"}, "children": kit.L{child(kit.Leaf, "b", "1"), child(kit.Widget, "c", "1"), child(kit.Leaf, "d", "1"), child(kit.Leaf, "e", "1"), child(kit.Leaf, "g", "1")}}
-	})
+	}))
+	c12Epoch = "boot"
 	w.Hooks.Handle("/cc/sync", boot)
 	w.DeliverAll()
 	for i := 0; i < 3; i++ {
@@ -81,6 +121,7 @@ func c12Build(scenario string) *c12World {
 	w.Sim.Edit(kit.Leaf, "n1", "g", func(o map[string]interface{}) { kit.Labels(o, "app", "y") })
 	w.Sim.Edit(kit.Thing, "n1", "p", func(o map[string]interface{}) { delete(o["metadata"].(map[string]interface{}), "finalizers") })
 	ver = "2"
+	c12Epoch = "main"
 	x.good = h
 	w.Hooks.Handle("/cc/sync", h)
 	w.DeliverAll()
@@ -128,7 +169,8 @@ func (x *c12World) settle() (rounds int, ok bool) {
 				writes++
 			}
 		}
-		if x.Sim.Dump(false) == before && writes == 0 && len(x.Stale()) == 0 {
+		// quiescent: nothing changed, nothing was written, and the sync did not report an error
+		if x.Sim.Dump(false) == before && writes == 0 && len(x.Stale()) == 0 && !x.Q.Has("AddRateLimited", x.key) {
 			return rounds, true
 		}
 	}
@@ -222,7 +264,7 @@ func TestVerifC12(t *testing.T) {
 	defer r.Write()
 	r.DeclareClauses("no-panic", "error-and-requeue", "forget-on-success", "429-requeue-after", "sticky-others-reconciled", "sticky-status-attempted", "converges-like-fault-free", "benign-race-tolerated")
 	idx := 0
-	for _, scenario := range []string{"mixed", "rolling"} {
+	for _, scenario := range []string{"mixed", "rolling", "mixed-etag"} {
 		// fault-free reference
 		base := c12Build(scenario)
 		base.Q.Put(base.key)
@@ -266,7 +308,7 @@ func TestVerifC12(t *testing.T) {
 					x.Sim.Plan = plan(x)
 				}
 				if hook != nil {
-					x.Hooks.Handle("/cc/sync", hook)
+					x.Hooks.Handle("/cc/sync", x.wrap(hook))
 				}
 				x.Q.Clear()
 				x.Q.Put(x.key)
@@ -504,7 +546,13 @@ func TestVerifC12(t *testing.T) {
 		hookFault("500", 500, nil, "boom", false, 1, 0)
 		hookFault("503", 503, nil, "unavailable", false, 1, 0)
 		hookFault("refused", 0, nil, "", true, 1, 0)
-		hookFault("garbage", 200, nil, "<html>", false, 1, 0)
+		if scenario != "mixed-etag" {
+			// (a 200 that carries an ETag IS the representation the tag names, garbage or not: a later 304 for it
+			// legitimately brings the garbage back - the hook's inconsistency, not metacontroller's)
+			hookFault("garbage", 200, nil, "<html>", false, 1, 0)
+		}
+		hookFault("500-json-error-page", 500, nil, `{"error":"backend unavailable"}`, false, 1, 0)
+		hookFault("404-json-error-page", 404, nil, `{"message":"no such route"}`, false, 1, 0)
 		hookFault("429-numeric", 429, http.Header{"Retry-After": []string{"7"}}, "", false, -1, 7*time.Second)
 		hookFault("429-absent", 429, nil, "", false, -1, 0)
 		if scenario == "rolling" {
